@@ -41,6 +41,8 @@ class _UnitsInterp(FinamInterp):
             self.conversions += 1
             src, dst = fv.args[0], args[0]
             su = src.args[1] if isinstance(src, Sym) and src.op == "qty" else src
+            if su == dst:
+                return src
             if not self.compatible:
                 self.on_raise(Sym("exc", "DimensionalityError"), node)
             return Sym("qty", Sym("conv", src.args[0] if isinstance(src, Sym) and src.op == "qty" else 1.0, su, dst), dst)
@@ -66,6 +68,8 @@ class _UnitsInterp(FinamInterp):
 
     def ext_call(self, name, args, kwargs, node):
         if name.endswith("isclose"):
+            if args and args[0] == 1.0:
+                return True
             return self.equivalent
         if name.endswith("Quantity"):
             return Sym("qty", args[0], args[1])
@@ -76,6 +80,32 @@ class _UnitsInterp(FinamInterp):
             eq = left == right
             return eq if isinstance(op, ast.Eq) else (not eq) if isinstance(op, ast.NotEq) else super().sym_compare(op, left, right, node)
         return super().sym_compare(op, left, right, node)
+
+
+class _PrepInterp(_UnitsInterp):
+    def call_hook(self, fv, args, kwargs, node, mod):
+        if isinstance(fv, Closure):
+            n = getattr(fv.func, "name", "")
+            if n == "is_quantified":
+                return isinstance(args[0], Sym) and args[0].op == "qty"
+            if n == "_check_input_shape":
+                return args[0]
+        return super().call_hook(fv, args, kwargs, node, mod)
+
+    def get_attr(self, obj, attr, node, mod):
+        if isinstance(obj, Obj) and obj.label == "info" and attr in obj.fields:
+            return obj.fields[attr]
+        if isinstance(obj, Sym) and obj.op == "qty" and attr == "copy":
+            return Sym("copy_of", obj)
+        return super().get_attr(obj, attr, node, mod)
+
+    def ext_call(self, name, args, kwargs, node):
+        short = name.split(".")[-1]
+        if short == "isarray":
+            return isinstance(args[0], Sym) and args[0].op == "masked"
+        if name.endswith("ma.array"):
+            return Sym("masked", kwargs.get("data", args[0] if args else None))
+        return super().ext_call(name, args, kwargs, node)
 
 
 def r36_units(repo, sink):
@@ -145,6 +175,31 @@ def r36_units(repo, sink):
     if same != x:
         worst = worst or f"identical units must pass through unchanged, got {same!r}"
     sink.check(worst is None, "R36", "units:to_units", tu, ok="relabel iff equivalent (and requested), convert otherwise, refuse incompatible", bad=worst or "")
+    # prepare: published data with foreign units is converted (masked or not), equivalent units pass
+    pf = repo.func("src/finam/data/tools/core.py", "prepare")
+    worst = None
+    for compatible, equivalent, masked in itertools.product((True, False), (True, False), (True, False)):
+        if equivalent and not compatible:
+            continue
+        it = _PrepInterp(repo, compatible, equivalent)
+        info = Obj(label="info", fields={"units": b, "is_masked": masked, "mask": Sym("M"), "fill_value": None, "grid": None})
+        try:
+            got = it.run(pf, [Sym("qty", Sym("mag"), a), info], {"report_conversion": True})
+        except Raised as r:
+            got = ("raise", r.name)
+        X = Sym("masked", Sym("mag")) if masked else Sym("mag")
+        if not compatible:
+            want = ("raise", "FinamDataError")
+        elif equivalent:
+            want = (Sym("qty", X, a), None)
+        else:
+            want = (Sym("qty", Sym("conv", X, a, b), b), (a, b))
+        if got != want:
+            worst = worst or (f"quantity in unit a published into an output declared in unit b (dimension-equal={compatible}, factor-one={equivalent}, "
+                              f"mask in the info={masked}): prepare yields {got!r}, expected {want!r}")
+    sink.check(worst is None, "R36", "units:prepare-table", pf,
+               ok="prepare converts compatible non-equivalent units (also when it wraps the data into a masked array), refuses incompatible ones",
+               bad=worst or "")
     # prepare / check refuse incompatible units with FinamDataError; accepts() reports units
     core = repo.module("src/finam/data/tools/core.py")
     for fname in ("prepare", "check"):
@@ -348,6 +403,8 @@ class _ArrInterp(FinamInterp):
         if isinstance(obj, Sym) and obj.op == "ext" and obj.args[0] in ("np.ma", "numpy.ma") and attr == "nomask":
             return NOMASK
         if isinstance(obj, Sym) and obj == Sym("X") and attr in ("data", "mask", "units"):
+            if attr == "mask" and getattr(self, "nomask_input", False):
+                return NOMASK
             return Sym("X." + attr)
         if isinstance(obj, Sym) and obj.op != "ext" and attr in ("compress", "ravel", "reshape"):
             return Sym("method", obj, attr)
@@ -389,6 +446,16 @@ def r33c_compress(repo, sink):
     want = Sym("compress", Sym("ravel", Sym("X.data"), O), Sym("logical_not", Sym("ravel", Sym("X.mask"), O)))
     sink.check(got == want, "R33", "compress:to:masked-array", tc, ok="masked arrays: own data and own mask, same order",
                bad=f"to_compressed on a masked array computes {got!r}")
+    # masked array / explicit mask that is numpy's `nomask`: nothing is dropped, the order still applies
+    it = _ArrInterp(repo, masked_input=True)
+    it.nomask_input = True
+    got = it.run(tc, [X], {"order": O})
+    sink.check(got == Sym("ravel", Sym("X.data"), O), "R33", "compress:to:masked-array-nomask", tc, ok="masked array without masked cells: flattened in the requested order",
+               bad=f"to_compressed on a masked array whose mask is nomask computes {got!r}: the requested order is lost")
+    it = _ArrInterp(repo, masked_input=False)
+    got = it.run(tc, [X], {"order": O, "mask": NOMASK})
+    sink.check(got == Sym("ravel", X, O), "R33", "compress:to:explicit-nomask", tc, ok="mask=nomask: flattened in the requested order",
+               bad=f"to_compressed(mask=nomask) computes {got!r}: the requested order is lost")
     it = _ArrInterp(repo, masked_input=False)
     got = it.run(tc, [X], {"order": O})
     sink.check(got == Sym("reshape", X, -1, Sym("kw", "order", O)), "R33", "compress:to:unmasked", tc, ok="unmasked data is flattened in the requested order",
@@ -632,3 +699,190 @@ def _derives_from(f, expr, roots, stop=(), depth=0):
                 if _derives_from(f, d.value, roots, stop, depth + 1):
                     return True
     return False
+
+
+# ==================================================================== R37e / R15g
+def r37e_masks_equal_layout(repo, sink):
+    """masks_equal compares masks *after* bringing each to canonical form with its own grid:
+    raw-identical arrays on differently laid-out grids are different masks, and differently
+    stored arrays can be the same mask."""
+    f = repo.func(MASK_PY, "masks_equal")
+
+    class _I(_MaskInterp):
+        def __init__(self, repo, raw_equal):
+            super().__init__(repo)
+            self.raw_equal = raw_equal
+
+        def get_attr(self, obj, attr, node, mod):
+            if isinstance(obj, Obj) and obj.label.startswith("lgrid") and attr == "to_canonical":
+                return Sym("canon_with", obj.label)
+            return super().get_attr(obj, attr, node, mod)
+
+        def call_hook(self, fv, args, kwargs, node, mod):
+            if isinstance(fv, Sym) and fv.op == "canon_with":
+                m = args[0]
+                if isinstance(m, Sym) and m.op == "lmask":
+                    if m.args[1] != fv.args[0]:
+                        return Sym("lmask_canon", ("wrong-grid", m.args[0], m.args[1], fv.args[0]))
+                    return Sym("lmask_canon", m.args[0])
+                return m
+            return super().call_hook(fv, args, kwargs, node, mod)
+
+        def ext_call(self, name, args, kwargs, node):
+            short = name.split(".")[-1]
+            if short == "is_mask":
+                return isinstance(args[0], Sym) and args[0].op in ("lmask", "lmask_canon", "nomask")
+            if short == "any":
+                return True
+            return super().ext_call(name, args, kwargs, node)
+
+        def sym_compare(self, op, left, right, node):
+            if isinstance(left, Sym) and isinstance(right, Sym) and {left.op, right.op} <= {"lmask", "lmask_canon"}:
+                if left.op == right.op == "lmask_canon":
+                    eq = left.args[0] == right.args[0]
+                elif left.op == right.op == "lmask":
+                    eq = self.raw_equal
+                else:
+                    eq = False
+                return eq if isinstance(op, ast.Eq) else not eq
+            return super().sym_compare(op, left, right, node)
+
+    cases = [
+        # (physical id a, physical id b, raw arrays equal?, expected)
+        ("same mask, same layout", "A", "A", True, True),
+        ("raw-identical arrays on differently laid-out grids (different physical masks)", "A", "B", True, False),
+        ("same physical mask stored in two layouts (raw arrays differ)", "A", "A", False, True),
+        ("different masks", "A", "B", False, False),
+    ]
+    worst = None
+    for name, ca, cb, raw_eq, want in cases:
+        it = _I(repo, raw_eq)
+        g1, g2 = Obj(label="lgrid1"), Obj(label="lgrid2")
+        try:
+            got = it.run(f, [Sym("lmask", ca, "lgrid1"), Sym("lmask", cb, "lgrid2"), g1, g2])
+        except (Raised, Undecided) as exc:
+            worst = worst or f"{name}: {exc}"
+            continue
+        if bool(got) != want:
+            worst = worst or f"{name}: masks_equal says {bool(got)}, must be {want}"
+    mc = repo.func(MASK_PY, "masks_compatible")
+    for down in (False, True):
+        for name, ca, cb, raw_eq, want in cases:
+            it = _I(repo, raw_eq)
+            g1, g2 = Obj(label="lgrid1"), Obj(label="lgrid2")
+            try:
+                got = it.run(mc, [Sym("lmask", ca, "lgrid1"), Sym("lmask", cb, "lgrid2"), down, g1, g2])
+            except (Raised, Undecided) as exc:
+                worst = worst or f"masks_compatible, incoming from {'downstream' if down else 'upstream'}, {name}: {exc}"
+                continue
+            if bool(got) != want:
+                worst = worst or (f"masks_compatible, incoming from {'downstream' if down else 'upstream'}, {name}: {bool(got)}, must be {want} "
+                                  "(each mask has to be canonicalised with its own grid)")
+    sink.check(worst is None, "R37", "masks_equal-layout", f,
+               ok="masks are compared in canonical form, each converted with its own grid",
+               bad=(worst or "") + ": mask equality must be decided on the canonical (layout independent) form")
+
+
+class _GridCompat(FinamInterp):
+    def __init__(self, repo, close=True):
+        super().__init__(repo)
+        self.close = close
+
+    def ext_call(self, name, args, kwargs, node):
+        short = name.split(".")[-1]
+        if short == "allclose":
+            return self.close
+        if short == "all" and isinstance(args[0], (bool, list, tuple)):
+            return bool(args[0]) if isinstance(args[0], bool) else all(args[0])
+        return super().ext_call(name, args, kwargs, node)
+
+    def sym_compare(self, op, left, right, node):
+        if isinstance(op, (ast.Eq, ast.NotEq)):
+            eq = left == right
+            return eq if isinstance(op, ast.Eq) else not eq
+        return super().sym_compare(op, left, right, node)
+
+
+def r15g_gridcompat(repo, sink):
+    # NoGrid: same rank and same shape entries
+    ng = repo.cls("NoGrid")
+    cw = repo.resolve(ng, "compatible_with", "method")
+    init = repo.resolve(ng, "__init__", "method")
+
+    def mk(**kw):
+        o = Obj(cls=ng, label="NoGrid")
+        _GridCompat(repo).run(init, [], kw, self_obj=o)
+        return o
+
+    table = [
+        ({}, {}, True), ({"dim": 1}, {"dim": 1}, True), ({"dim": 1}, {"dim": 2}, False), ({}, {"dim": 1}, False),
+        ({"dim": 2}, {"dim": 1}, False), ({"data_shape": (3,)}, {"data_shape": (3,)}, True), ({"data_shape": (3,)}, {"data_shape": (4,)}, False),
+        ({"data_shape": (3,)}, {"data_shape": (3, 2)}, False), ({"dim": 1}, {"data_shape": (3,)}, False),
+    ]
+    worst = None
+    for a, b, want in table:
+        try:
+            got = _GridCompat(repo).run(cw, [mk(**b)], self_obj=mk(**a))
+        except (Raised, Undecided) as exc:
+            worst = worst or f"NoGrid({a}) vs NoGrid({b}): {exc}"
+            continue
+        if bool(got) != want:
+            worst = worst or f"NoGrid({a}).compatible_with(NoGrid({b})) is {bool(got)}, must be {want} (rank and shape entries must agree)"
+    other = Obj(cls=repo.cls("StructuredGrid"), label="grid")
+    if _GridCompat(repo).run(cw, [other], self_obj=mk()) is not False:
+        worst = worst or "NoGrid is compatible with a spatial grid"
+    sink.check(worst is None, "R15", "compat-table:NoGrid", cw, ok="grid-less data is compatible iff rank and shape entries agree", bad=worst or "")
+    # StructuredGrid.compatible_with: every ingredient is necessary
+    sg = repo.cls("StructuredGrid")
+    f = repo.resolve(sg, "compatible_with", "method")
+
+    def grid(dim=2, crs=None, loc="CELLS", rev=False, shape=(3, 2), label="grid"):
+        o = Obj(cls=sg, label=label)
+        o.fields.update(dim=dim, crs=crs, data_location=Sym("enum", "Location", loc), axes_reversed=rev,
+                        data_shape=shape, axes=[Sym("ax0"), Sym("ax1")][:dim] or [Sym("ax0")])
+        return o
+
+    base = dict(dim=2, crs=None, loc="CELLS", rev=False, shape=(3, 2))
+    cases = [
+        ("identical", {}, True, True),
+        ("different dimension", {"dim": 1}, True, False),
+        ("different CRS", {"crs": "EPSG:4326"}, True, False),
+        ("different data location", {"loc": "POINTS"}, True, False),
+        ("different data shape", {"shape": (4, 2)}, True, False),
+        ("reversed axes order, transposed shape", {"rev": True, "shape": (2, 3)}, True, True),
+        ("reversed axes order, same shape", {"rev": True, "shape": (3, 2)}, True, False),
+        ("axes coordinates differ", {}, False, False),
+    ]
+    worst = None
+    for name, delta, close, want in cases:
+        it = _GridCompat(repo, close)
+        try:
+            got = it.run(f, [grid(**{**base, **delta})], self_obj=grid(**base))
+        except (Raised, Undecided) as exc:
+            worst = worst or f"{name}: {exc}"
+            continue
+        if bool(got) != want:
+            worst = worst or f"{name}: compatible_with is {bool(got)}, must be {want}"
+    it = _GridCompat(repo)
+    if it.run(f, [Obj(cls=repo.cls("NoGrid"), label="NoGrid")], self_obj=grid(**base)) is not False:
+        worst = worst or "a structured grid is compatible with NoGrid"
+    sink.check(worst is None, "R15", "compat-table:StructuredGrid", f,
+               ok="compatible iff same dimension, CRS, data location, (axis-order aware) data shape and coordinates", bad=worst or "")
+    # __eq__ additionally requires the same layout
+    eq = repo.resolve(sg, "__eq__", "method")
+    worst = None
+    for name, inc_a, inc_b, ra, rb, want in (("same layout", [True, False], [True, False], False, False, True),
+                                             ("other axis direction", [True, False], [False, True], False, False, False),
+                                             ("both decreasing vs one decreasing", [False, False], [True, False], False, False, False),
+                                             ("other axis order", [True, True], [True, True], False, True, False)):
+        a, b = grid(**{**base, "rev": ra}), grid(**{**base, "rev": rb, "shape": (2, 3) if rb != ra else (3, 2)})
+        a.fields["axes_increase"], b.fields["axes_increase"] = inc_a, inc_b
+        try:
+            got = _GridCompat(repo).run(eq, [b], self_obj=a)
+        except (Raised, Undecided) as exc:
+            worst = worst or f"{name}: {exc}"
+            continue
+        if bool(got) != want:
+            worst = worst or f"{name}: == is {bool(got)}, must be {want}"
+    sink.check(worst is None, "R15", "layout-equality:StructuredGrid", eq, ok="== holds only for compatible grids with identical axis order and directions",
+               bad=(worst or "") + ": layout-sensitive equality decides whether data is passed through untransformed")
